@@ -10,7 +10,7 @@
     [completeb]) and, by [C15_invariants_hold], after every history. *)
 From Coq Require Import ZArith List Bool Lia.
 From SpyneV Require Import C15.Spec C15.OdictProofs C15.StoreProofs C15.OpProofs C15.EvoProofs
-  C15.Proofs C15.ExStore.
+  C15.Proofs C15.FieldsProofs C15.DecimalProofs C15.ExStore.
 Import ListNotations.
 Open Scope Z_scope.
 
@@ -110,7 +110,45 @@ Theorem C15_customize_keeps_fields : forall s c kw s' n,
   fields_of s' n = fields_of s c /\ get_extends s' n = get_extends s c.
 Proof. exact customize_plain_fields. Qed.
 
+(** customize() with child_attrs / child_attrs_all / child_attrs_noexc: the same field names in
+    the same order, and every field type is the original's or a class customized from it *)
+Theorem C15_customize_keeps_order : forall s c kw ca caa ne s' n r,
+  inv s -> lookup s c = Some r -> is_simple (c_kind r) = false ->
+  customize s c kw ca caa ne = ROk (s', n) ->
+  fields_derive s (fields_of s c) s' (fields_of s' n).
+Proof. exact customize_fields. Qed.
+
+(** the keyword set Decimal._s_customize passes on (repaired code): every request is kept;
+    max_str_len is the requested one, else total_digits + 2 when total_digits are requested, else
+    not requested at all, i.e. inherited through [fresh_lookup] *)
+Theorem C15_fresh_decimal_keywords : forall s c kw kw1,
+  decimal_pre s c kw = ROk kw1 -> NoDup (map fst kw) ->
+  (forall k, k <> K_MAX_STR_LEN -> requested k kw1 = requested k kw) /\
+  requested K_MAX_STR_LEN kw1 =
+    match kwget kw K_MAX_STR_LEN with
+    | Some m => Some m
+    | None => match kwget kw K_TOTAL_DIGITS with Some t => num_add2 t | None => None end
+    end.
+Proof. exact decimal_keywords. Qed.
+
 (** ** field order *)
+(** append_field puts a new name last and leaves a known name where it is; insert_field puts the
+    name at the Python list index among the other names — in the class and in each of its variants;
+    every other class keeps its field table *)
+Theorem C15_order_append : forall s c k t s',
+  inv s -> append_field s c k t = ROk s' ->
+  forall x, 0 <= x < size s ->
+    (In x (touched s (OAppend c k t)) -> keys (fields_of s' x) = G_append k (keys (fields_of s x))) /\
+    (~ In x (touched s (OAppend c k t)) -> fields_of s' x = fields_of s x).
+Proof. exact append_field_keys. Qed.
+
+Theorem C15_order_insert : forall s c i k t s',
+  inv s -> insert_field s c i k t = ROk s' ->
+  forall x, 0 <= x < size s ->
+    (In x (touched s (OInsert c i k t)) -> keys (fields_of s' x) = G_insert i k (keys (fields_of s x))) /\
+    (~ In x (touched s (OInsert c i k t)) -> fields_of s' x = fields_of s x).
+Proof. exact insert_field_keys. Qed.
+
 (** the class statement: the own field table is the declared one, in declaration order *)
 Theorem C15_order_declared : forall s parent name fs s' n,
   subclass s parent name fs = ROk (s', n) ->
@@ -226,6 +264,27 @@ Example C15_ex_fresh :
     lookup s' 5 = Some r' /\
     resolve s' 5 K_GE = Some (VInt 5) /\ resolve s' 5 K_MAX_OCCURS = Some VInf /\
     resolve s' 5 K_MAX_STR_LEN = Some (VInt 1024) /\ resolve ex0 3 K_GE = Some VNegInf.
+Proof. vm_compute. eexists. eexists. repeat split. Qed.
+
+Example C15_ex_customize_order :
+  exists r, lookup ex0 0 = Some r /\
+  let s5 := run ex0 [OSubclass 0 t_K [(t_a, 3); (t_b, 4)]] in
+  exists s' n, customize s5 5 [(K_MIN_OCCURS, VInt 1)] (Some [(t_a, [(K_MIN_OCCURS, VInt 1)])])
+                         (Some [(K_NULLABLE, VBool false)]) (Some [(t_b, [(K_MAX_OCCURS, VInt 2)])])
+               = ROk (s', n) /\
+    keys (fields_of s' n) = [t_a; t_b] /\ fields_of s' n <> fields_of s5 5 /\
+    exists kw1, decimal_pre ex0 3 [(K_TOTAL_DIGITS, VInt 5); (K_GE, VInt 0)] = ROk kw1 /\
+                requested K_MAX_STR_LEN kw1 = Some (VInt 7).
+Proof.
+  eexists. split; [vm_compute; reflexivity |]. vm_compute.
+  eexists. eexists. split; [reflexivity |]. split; [reflexivity |]. split; [discriminate |].
+  eexists. split; reflexivity.
+Qed.
+
+Example C15_ex_evolution_order :
+  exists s1 s2, append_field ex1 5 t_z 3 = ROk s1 /\ insert_field s1 5 1 t_K 4 = ROk s2 /\
+    keys (fields_of s2 5) = [t_a; t_K; t_b; t_z] /\ keys (fields_of s2 12) = [t_a; t_K; t_b; t_z] /\
+    keys (fields_of s2 8) = [t_z].
 Proof. vm_compute. eexists. eexists. repeat split. Qed.
 
 Example C15_ex_order :
